@@ -17,9 +17,7 @@ import (
 	"fmt"
 	"hash/crc32"
 	"io"
-	"os"
 	"runtime"
-	"runtime/pprof"
 	"sort"
 	"strings"
 	"sync"
@@ -1087,13 +1085,11 @@ func checkC10(c *ctx) {
 		c10Replay(c)
 		return
 	}
+	// every case allocates a few hundred KiB of reader buffers; with a small live heap the collector
+	// would run every few cases.  A ballast keeps the GC period long.
+	ballast := make([]byte, 512<<20)
+	defer runtime.KeepAlive(ballast)
 	streams := c10Streams(c)
-	if pf := os.Getenv("C10_PROF"); pf != "" {
-		f, _ := os.Create(pf)
-		pprof.StartCPUProfile(f)
-		defer pprof.StopCPUProfile()
-		streams = streams[:1]
-	}
 	vrnd := c.rnd.fork()
 	// sampled: the original value, boundary values, bit flips, 0x11 (BSIZE = 17), and random others
 	sampled := func(st *c10Stream, nOther int) func(pos int, role string) []int {
